@@ -150,7 +150,7 @@ func reporterSeqReplay(args []string) int {
 			}
 		}
 		if reads["/vfs/a.go"] != st.ReadsA || reads["/vfs/b.go"] != st.ReadsB {
-			fail(len(st.Hist)-1, "ReadFile calls (a, b)", []int{st.ReadsA, st.ReadsB}, []int{reads["/vfs/a.go"], reads["/vfs/b.go"]})
+			fail(len(st.Hist)-1, "ReadFile calls (a, b) [not part of the rendered message]", []int{st.ReadsA, st.ReadsB}, []int{reads["/vfs/a.go"], reads["/vfs/b.go"]})
 		}
 	}
 	_ = json.NewEncoder(os.Stdout).Encode(map[string]any{"histories": n, "renders": renders, "bad_lines": badLines, "mismatches": bad})
